@@ -272,6 +272,14 @@ def make(kind, rng, norb, nelec, **opt):
             if not chosen:
                 raise ValueError("no non-aufbau determinant available")
             dets = chosen[:1] + [aufbau] + chosen[1:]  # a non-aufbau determinant comes first
+        elif reference == "top":
+            # the reference occupies the HIGHEST orbitals and the aufbau determinant is in the list: every electron
+            # moves downwards (nested hole/particle patterns, the hardest case for the sign bookkeeping)
+            top = (tuple(range(norb - na, norb)), tuple(range(norb - nb, norb)))
+            if top == aufbau:
+                dets = [aufbau] + chosen
+            else:
+                dets = [top, aufbau] + [d for d in chosen if d != top][: max(0, nd - 2)]
         else:
             raise ValueError(reference)
         coeffs = [dy(rng, nonzero=True) for _ in dets]
